@@ -234,7 +234,7 @@ void vh_violation(const char *key, const char *detail_json, const char *replay_j
               detail_json ? detail_json : "null", replay_json ? replay_json : (vh_sh->cur_desc[0] ? vh_sh->cur_desc : "null"));
     emit_line(s.p); sb_free(&s);
 }
-int vh_want_sample(void) { return vh_sh->samples_emitted < 3 && vh_shard == 0; }
+int vh_want_sample(void) { return vh_sh->samples_emitted < 3 && (vh_shard == 0 || vh_shard == 3 % vh_nshards); }
 void vh_sample(const char *json)
 {
     vh_sb s;
@@ -277,6 +277,8 @@ void vh_call_end(void) { vh_sh->in_call = 0; }
 static char g_fault_info[256];
 static char *g_fault_shared; /* in shared mapping */
 
+void (*vh_child_exit_hook)(void);
+
 int vh_run(vh_case_fn fn)
 {
     uint64_t next = vh_first, end = vh_first + vh_cases;
@@ -287,6 +289,7 @@ int vh_run(vh_case_fn fn)
     if (vh_nofork) {
         uint64_t i;
         for (i = next; i < end; ++i) if (i % vh_nshards == vh_shard) { fn(i); vh_sh->done_upto = i + 1; }
+        if (vh_child_exit_hook) vh_child_exit_hook();
         return 0;
     }
     while (next < end) {
@@ -301,6 +304,7 @@ int vh_run(vh_case_fn fn)
             uint64_t i;
             for (i = next; i < end; ++i) if (i % vh_nshards == vh_shard) { fn(i); vh_sh->done_upto = i + 1; }
             vh_sh->done_upto = end;
+            if (vh_child_exit_hook) vh_child_exit_hook();
             fflush(stdout);
             _exit(0);
         }
